@@ -124,7 +124,7 @@ func checkC07() *rtCheck {
 				run.Violation(f.Key, f.What, c07Witness{Spec: d.Spec, DSL: d.DSL})
 			}
 		},
-		Unions:     true,
+		Unions: true,
 		PostDesign: func(run *vc.Run, d *pipeline.Design, setup map[string]any) {
 			mounted := map[string][][2]string{}
 			if b, err := json.Marshal(setup["mounted"]); err == nil {
